@@ -49,6 +49,10 @@ def _cos_sin_atom(c, poly):
         return r
     co = c.fresh_real('cos')
     si = c.fresh_real('sin')
+    from . import diff
+    arg = ring.to_z3(poly)
+    diff.register(co.t, 'cos', arg, si.t)
+    diff.register(si.t, 'sin', arg, co.t)
     c.fact(co.t * co.t + si.t * si.t == 1)
     c.fact(z3.And(co.t >= -1, co.t <= 1, si.t >= -1, si.t <= 1))
     c.trig[k] = (co, si)
@@ -179,6 +183,8 @@ def apply(ip, fname, x):
         if k in c.trig:
             return c.trig[k]
         r = c.fresh_real('log')
+        from . import diff
+        diff.register(r.t, 'log', sym.zreal(x))
         c.trig[k] = r
         c.trig.setdefault('logs', []).append((x, r))
         return r
